@@ -31,7 +31,7 @@ def gen_script(rng, idx, live):
         for c in range(nwr):
             size = rng.choice([0, 1, 1, 2, 3]) if c else rng.choice([1, 2, 3])
             data = bytes([(16 * (i + 1) + c * 4 + x) % 256 for x in range(size)])
-            ops.append("w%d:%s" % (i, hexs(data)))
+            ops.append("%s%d:%s" % ("v" if size >= 2 and rng.chance(1, 4) else "w", i, hexs(data)))
             if rng.chance(1, 3):
                 ops.append("f%d" % i)
         if kind == 1:
@@ -71,7 +71,7 @@ def gen_script(rng, idx, live):
         if t not in started and any(owner[x] == t for x in range(n)):
             main.append("S%d" % t)
     for o in main_own:
-        if int(re.match(r"[wfd](\d+)", o).group(1)) not in early:
+        if int(re.match(r"[wfdv](\d+)", o).group(1)) not in early:
             main.append(o)
     bd = rng.below(2)
     parts = ["bd=%d" % bd, "live=%d" % (1 if live else 0), "main=" + ",".join(main)]
@@ -94,7 +94,7 @@ def to_reader_ops(body, rng):
     """turns a writer script into a reader script: a write of k bytes becomes a read with a buffer of 1..k+2 bytes, a
     flush becomes a zero-length read"""
     def conv(op):
-        if op[0] == "w":
+        if op[0] in "wv":
             i, d = op[1:].split(":")
             return "r%s:%d" % (i, max(0, len(d) // 2 + rng.choice([-1, 0, 0, 1, 2])))
         if op[0] == "f":
@@ -104,7 +104,7 @@ def to_reader_ops(body, rng):
     for x in body.split(" "):
         if x.startswith("main=") or re.match(r"t\d+=", x):
             k, v = x.split("=", 1)
-            out.append(k + "=" + ",".join(conv(o) if o and o[0] in "wfd" else o for o in v.split(",")))
+            out.append(k + "=" + ",".join(conv(o) if o and o[0] in "wfdv" else o for o in v.split(",")))
         else:
             out.append(x)
     return " ".join(out)
@@ -142,6 +142,8 @@ def model_line_after(case, obs):
         return "#"
     m = o["raw"]
     sc = scripts(case)
+    # a gathered write is a write for the model
+    sc = dict((k, [("w" + op[1:]) if op[0] == "v" else op for op in v]) for k, v in sc.items())
     rd = case.startswith("srs ")
     if rd:
         # a read is the model's Write with the bytes it obtained; enabledness does not depend on the data
@@ -150,9 +152,11 @@ def model_line_after(case, obs):
     progs = [",".join(sc.get("m", []))] + [",".join(sc[k]) for k in sorted((k for k in sc if k != "m"), key=lambda z: int(z[1:]))]
     mainops = [y for x in case.split(" ") if x.startswith("main=") for y in x[5:].split(",") if y]
     last_s = max([i for i, y in enumerate(mainops) if y[0] == "S"] + [-1])
-    first_own = min([i for i, y in enumerate(mainops) if y[0] in "wfdr"] + [len(mainops)])
+    first_own = min([i for i, y in enumerate(mainops) if y[0] in "wfdrv"] + [len(mainops)])
     late = "1" if first_own > last_s else "0"
     pend = m.group(4)
+    if pend != "-":
+        pend = ",".join(re.sub(r"/v(\d+):", r"/w\1:", x) for x in pend.split(","))
     if rd and pend != "-":
         pend = ",".join(re.sub(r"/r(\d+):\d+$", r"/w\1:", x) for x in pend.split(","))
     return "swr %s %s %s %s %d|%s %s" % (m.group(1), m.group(2), pend, "1" if " live=1" in case else "0", nw, "|".join(progs), late)
@@ -166,11 +170,26 @@ def scripts(case):
     out = {}
     for x in case.split(" ")[2:]:
         if x.startswith("main="):
-            out["m"] = [o for o in x[5:].split(",") if o and o[0] in "wfdr"]
+            out["m"] = [o for o in x[5:].split(",") if o and o[0] in "wfdrv"]
         elif re.match(r"t\d+=", x):
             nm, ops = x.split("=", 1)
             out[nm] = [o for o in ops.split(",") if o]
     return out
+
+
+def coalesce(ops):
+    """consecutive writes to one writer as one (a gathered write may reach the sink in one or in several pieces)"""
+    out = []
+    for op in ops:
+        if op[0] == "v":
+            op = "w" + op[1:]
+        if op[0] == "w" and out and out[-1][0] == "w" and out[-1].split(":")[0] == op.split(":")[0]:
+            out[-1] = out[-1] + op.split(":")[1]
+        elif op[0] == "w" and op.endswith(":"):
+            out.append(op)
+        else:
+            out.append(op)
+    return [o for o in out if not (o[0] == "w" and o.endswith(":"))]
 
 
 def oracle(case, obs):
@@ -185,7 +204,7 @@ def oracle(case, obs):
     owner = {}
     for nm, ops in sc.items():
         for op in ops:
-            owner[int(re.match(r"[wfdr](\d+)", op).group(1))] = nm
+            owner[int(re.match(r"[wfdrv](\d+)", op).group(1))] = nm
     # (3)
     per = {nm: [] for nm in sc}
     dropped = set()
@@ -220,7 +239,7 @@ def oracle(case, obs):
             if not ok:
                 return "FAIL %s completed %s but the marks are %s" % (nm, ",".join(exp) or "-", ",".join(seen) or "-")
             continue
-        if per[nm] != ops[:dn]:
+        if coalesce(per[nm]) != coalesce(ops[:dn]):
             return "FAIL %s completed %s but its marks are %s" % (nm, ",".join(ops[:dn]) or "-", ",".join(per[nm]) or "-")
     # (1)
     want = {}
